@@ -1,17 +1,17 @@
 import json
 props = {
  "C09": ("DESIGN.md 3 (I3, I1), 4 C09",
-   "Seeded search over operation histories (edits in every supported spelling, sharing, copies, algebra, both solvers, apply_BCs, injected call failures) interleaved by a seeded scheduler over 1-5 simulated user tasks; after every op a behavioural shadow solve (deepcopy of the variable with all hidden state, then one implicit and one explicit solve) must equal the same solves on a freshly constructed variable built from the visible state; bounded liveness after the last fault. Besides the random histories a stratified batch covers grid class x every history of <=2 (quick: sample, thorough: all 8 370) and <=3 letters (quick: sample, thorough: all 251 370) over a 30-letter edit/solve/fault alphabet on two variables sharing one BC object (DESIGN 13.1). Exploration, not proof: the history space is unbounded and sampled."),
+   "Seeded search over operation histories (edits in every supported spelling, sharing, copies, algebra, both solvers, apply_BCs, injected call failures) interleaved by a seeded scheduler over 1-5 simulated user tasks; after every op a behavioural shadow solve (deepcopy of the variable with all hidden state, then one implicit and one explicit solve) must equal the same solves on a freshly constructed variable built from the visible state; bounded liveness after the last fault; injected failures at three seams (external solver argument, module-level default solver, allocation failure inside apply_BCs) and at documented error paths; edits must have the effect of the same numpy operation. Besides the random histories a stratified batch covers grid class x every history of <=2 (quick: sample, thorough: all 8 370) and <=3 letters (quick: sample, thorough: all 251 370) over a 30-letter edit/solve/fault alphabet on two variables sharing one BC object (DESIGN 13.1). Exploration, not proof: the history space is unbounded and sampled."),
  "C14": ("DESIGN.md 3 (I2, I1, I8), 4 C14",
    "Seeded histories in which operator/eval/copy results become operands and targets of later edits by other tasks: per-op numpy reference for values, value-copy reference for BCs, fresh-twin reference for ghost values, byte-level frame condition on every other pool object after every later op, alias scan at creation; copy() must reproduce the full array incl. ghost cells and behave equally in a shadow solve; a failing *eval must leave its operands editable. A stratified batch covers {cell,face} x every operator / reflected operator / *eval arity / copy x operand kinds x all 9 grid classes (1 098 cells, all of them in every quick run), each followed by later edits of result and operands. Exploration over expression trees and later-modification histories."),
  "C15": ("DESIGN.md 3 (I1, I7, I8), 4 C15",
-   "Every public builder and solver runs inside shared-object histories; byte snapshots of the whole pool around every call (frame condition), rebuild of recorded calls must be bit-identical, recorded op lists re-executed in four fresh interpreters under different hash seeds must give identical per-event digests (part of every run of the check), alias scan of every returned object against mesh/input storage, in-place scribbles on returned objects must leave everything else unchanged, canary meshes monitor process-global state; builders may not even refresh derived state (ghost cells, cached boundary term) of their arguments. A stratified batch runs every public builder x all 9 grid classes (207 cells, all in every quick run: build, rebuild, scribble, rebuild, reuse in three solves, edit inputs, build again). Exploration."),
+   "Every public builder and solver runs inside shared-object histories; byte snapshots of the whole pool around every call (frame condition), rebuild of recorded calls must be bit-identical, recorded op lists re-executed in four fresh interpreters under different hash seeds must give identical per-event digests (part of every run of the check), alias scan of every returned object against mesh/input storage, in-place scribbles on returned objects must leave everything else unchanged, canary meshes monitor process-global state; builders may not even refresh derived state (ghost cells, cached boundary term) of their arguments; the caller's term list is not mutated; the solution of a solve depends on the current values of its inputs only (stored term objects reused across steps and edited in place). A stratified batch runs every public builder x all 9 grid classes (207 cells, all in every quick run: build, rebuild, scribble, rebuild, reuse in three solves, edit inputs, build again). Exploration."),
  "C03": ("DESIGN.md 3 (I4), 4 C03",
-   "History clause decided by simulation: after each of the four ghost-recomputing operations at any point of any edit history the target's ghost layer satisfies the *latest* (a,b,c)/periodic flags (formula written independently of boundary.py incl. 1/r and 1/(r sin theta)), wraps exactly on periodic axes and only there, plot profile edges are face averages and the solver's boundary rows give c on the full array. After apply_BCs (also as the documented remedy for edits the tracking cannot see) a shadow solve checks the solver rows too; (a,b,c) x non-zero factor (scalar or per face, either sign) must leave fresh and historical solutions unchanged. A stratified batch covers class x periodic pattern per axis {none, low flag, high flag, both} x {Dirichlet, Neumann, Robin} per side: all 1 998 cells of the 1-D/2-D classes in every quick run, the 69 984 3-D cells sampled (quick) / complete (thorough). Spacing and coefficient values are sampled."),
+   "History clause decided by simulation: after each of the four ghost-recomputing operations at any point of any edit history the target's ghost layer satisfies the *latest* (a,b,c)/periodic flags (formula written independently of boundary.py incl. 1/r and 1/(r sin theta)), wraps exactly on periodic axes and only there, plot profile edges are face averages and the solver's boundary rows give c on the full array. After apply_BCs (also as the documented remedy for edits the tracking cannot see) a shadow solve checks the solver rows too; (a,b,c) x non-zero factor (scalar or per face, either sign) must leave fresh and historical solutions unchanged. A stratified batch covers class x periodic pattern per axis {none, low flag, high flag, both} x {Dirichlet, Neumann, Robin} per side: all 1 998 cells of the 1-D/2-D classes in every quick run, the 69 984 3-D cells sampled (quick) / complete (thorough). In 30% of the random runs and in every stratified run solvePDE / solveExplicitPDE are also executed on a deep copy of every affected variable after every op (shadow solves) and judged by the same relations. Spacing and coefficient values are sampled."),
  "C04": ("DESIGN.md 3 (I5), 4 C04",
-   "At every solvePDE of every history: returned object identity, independent assembly (fresh BC term + signed/scaled term list) with backward-residual comparison, solveMatrixPDE equivalence, ghost-row leak test of every emitted term, and the external-solver seam via a recording fake (identical system in, returned vector stored, exactly one call; fake may raise or return a wrong shape). A stratified batch covers ordered lists of 1..3 distinct term variants x 4 solver-seam modes x 9 classes (5 616 cells; quick: sample, thorough: all). Linearity is not checked separately (it follows from assembly + independent BC relation + re-derived transient part); completeness over all term combinations not claimed."),
+   "At every solvePDE of every history: returned object identity, independent assembly (fresh BC term + signed/scaled term list) with backward-residual comparison, solveMatrixPDE equivalence, ghost-row leak test of every emitted term, and the external-solver seam via a recording fake (identical system in, returned vector stored, exactly one call; fake may raise or return a wrong shape). Shadow solves on deep copies after every op (30% of random runs, all stratified runs) apply the same assembly oracle at every point of a history. A stratified batch covers ordered lists of 1..3 distinct term variants x 4 solver-seam modes x 9 classes (5 616 cells; quick: sample, thorough: all). Linearity is not checked separately (it follows from assembly + independent BC relation + re-derived transient part); completeness over all term combinations not claimed."),
  "C12": ("DESIGN.md 3 (I6), 4 C12",
-   "Stepping semantics over multi-step histories: explicit update formula, input visible state untouched, boundary values re-imposed, transient term re-derived (scalar and per-cell alpha), fixed-point probe (steady solution reproduced by a transient step for dt over 12 decades) with conditioning guard, sampled dt->0 / dt->inf limits; the caller's RHS vector untouched. A stratified batch covers class x alpha {scalar, field} x 12 dt decades x {implicit, explicit, split, fixed-point+limits} (864 cells, all in every quick run). O(dt^2) agreement not claimed."),
+   "Stepping semantics over multi-step histories: explicit update formula, input visible state untouched, boundary values re-imposed, transient term re-derived (scalar and per-cell alpha), fixed-point probe (steady solution reproduced by a transient step for dt over 12 decades) with conditioning guard, sampled dt->0 / dt->inf limits; the caller's RHS vector untouched; the explicit result keeps following its input's BoundaryConditions object; boundary values of explicit results judged by the independent BC relation; update_value takes the source's cell values over; shadow implicit and explicit steps on deep copies after every op (30% of random runs, all stratified runs). A stratified batch covers class x alpha {scalar, field} x 12 dt decades x {implicit, explicit, split, fixed-point+limits} (864 cells, all in every quick run). O(dt^2) agreement not claimed."),
 }
 na = {
  "C01": "pure function of (grid, coefficient fields, field, dt): no schedule, shared state, seam or fault can change its truth; deciding it needs property-based/metamorphic testing or proof, which this task's technique family excludes",
